@@ -227,6 +227,24 @@ def fullwidth(items):
     return to_text(conv(items), ["　"] * (boundaries(items) + 1))
 
 
+def mixedwidth(rng, items, lays):
+    """every command on its own in full-width OR half-width characters, under an ordinary layout: a half-width command (a sharp
+    sign, say) followed by a blank or a comment and then a full-width command"""
+    def fw(s):
+        return "".join(chr(ord(c) + 0xFEE0) if 0x21 <= ord(c) <= 0x7E else c for c in s)
+
+    def conv(its):
+        out = []
+        for it in its:
+            w = fw if rng.random() < 0.5 else (lambda x: x)
+            if it[0] == "leaf":
+                out.append(("leaf", w(it[1])))
+            else:
+                out.append(("block", w(it[1]), conv(it[2]), w(it[3])))
+        return out
+    return to_text(conv(items), lays)
+
+
 def size(items):
     return sum(1 if it[0] == "leaf" else 1 + size(it[2]) for it in items)
 
@@ -277,6 +295,8 @@ def law(ctx, progs, origin):
             index.append((pi, ti, "compile", t))
             lines.append("compile\t%s\t0" % vlib.enc_text(t))
         index.append((pi, -1, "fullwidth", fullwidth(items)))
+        lines.append("compile\t%s\t0" % vlib.enc_text(index[-1][3]))
+        index.append((pi, -2, "fullwidth", mixedwidth(ctx.rng, items, [l if l.strip(" \t\n|;") == "" else " " for l in (lays[0] if lays else [" "] * (boundaries(items) + 1))])))
         lines.append("compile\t%s\t0" % vlib.enc_text(index[-1][3]))
     got = ctx.impl(lines, stall=20)
     base = {}
